@@ -451,9 +451,16 @@ def every_routine_parses_and_loads():
     assert len(db.routines) == len(routines)
 
 
-class _Req:
-    def __init__(self, app):
+class _Req(dict):
+    """aiohttp request stand-in: .app, item access, .read()"""
+
+    def __init__(self, app, body=None):
+        super().__init__()
         self.app = app
+        self._body = json.dumps(body).encode() if body is not None else b''
+
+    async def read(self):
+        return self._body
 
 
 BATCH_PY_WITH_SQL = ['front_end/front_end.py', 'batch.py', 'driver/job.py', 'driver/main.py', 'driver/canceller.py',
@@ -574,7 +581,12 @@ async def _e2e():
     assert rv['rc'] == 0
     await dj.mark_job_creating(app, bid, 5, 'att5', jp, 5200, res)
     await dj.unschedule_job(app, {'batch_id': bid, 'job_id': 5, 'attempt_id': 'att5', 'instance_name': 'jp1'})
-    await g.execute_update('UPDATE attempts SET rollup_time = %s WHERE batch_id = %s AND job_id = %s AND attempt_id = %s', (7000, bid, 1, 'att1'))
+    inst._last_updated = 0
+    await dm.billing_update_1(_Req(app, {'timestamp': 7000, 'attempts': [{'batch_id': bid, 'job_id': 1, 'attempt_id': 'att1'},
+                                                                       {'batch_id': bid, 'job_id': 4, 'attempt_id': 'att4'}]}), inst)
+    assert [r['rollup_time'] for r in db.tables['attempts'] if r['attempt_id'] == 'att1'] == [7000]
+    assert sum(r['usage'] for r in db.tables['aggregated_job_resources_v3'] if r['job_id'] == 1) == (7000 - 5000) * (1000 + 3840)
+    ran += ['driver.main.billing_update_1 (f-string UPDATE attempts ... OR ...)', 'Instance.mark_healthy']
     await dj.mark_job_complete(app, bid, 1, 'att1', 0, 'w1', 'Success', [0, 4000], 5000, 9000, 'completed', res, marked_job_started=True)
     await dj.mark_job_complete(app, bid, 1, 'att1', 0, 'w1', 'Success', [0, 4000], 5000, 9000, 'completed', res, marked_job_started=True)  # duplicate message
     ran += ['driver.job.mark_job_started', 'mark_job_creating', 'unschedule_job', 'mark_job_complete', 'add_attempt_resources']
@@ -595,8 +607,10 @@ async def _e2e():
         assert type(e).__name__ == 'HTTPBadRequest', e
     states = {r['job_id']: (r['state'], r['cancelled']) for r in db.tables['jobs']}
     assert states[1] == ('Success', 0) and states[2][0] == 'Cancelled' and states[3] == ('Ready', 1) and states[5][0] == 'Cancelled', states
-    rv = await g.execute_and_fetchone('CALL schedule_job(%s, %s, %s, %s);', (bid, 3, 'att3', 'w1'))
-    assert rv['rc'] == 0
+    await dj.schedule_job(app, await batchapp.scheduler_record(app, bid, 3, 'att3'), inst)      # REAL schedule_job incl. job_config
+    assert [r['state'] for r in db.tables['jobs'] if r['job_id'] == 3] == ['Running']
+    assert app['client_session'].calls[-1][0] == 'post' and app['client_session'].calls[-1][2]['json']['job_id'] == 3
+    ran += ['driver.job.schedule_job (job_config, SpecWriter.get_token_start_id, CALL schedule_job)']
     await dj.mark_job_complete(app, bid, 3, 'att3', 0, 'w1', 'Failed', None, 9500, 9900, 'completed', res)
     b = await fe._get_batch(app, bid)
     assert b['complete'] and b['state'] == 'failure' and b['n_completed'] == 5 and b['n_cancelled'] == 3 and b['n_failed'] == 1, b
@@ -873,6 +887,61 @@ def doubly_cancelled_ancestor_behaviour():
         app['task_manager'].shutdown()
         return out
     print('    schedule_job of an always_run job whose group and batch are both cancelled ->', asyncio.run(go()))
+
+
+@test
+def fakepool_under_real_gear_database():
+    db = small_db()
+
+    async def go():
+        g = await fakepool.make_database(db)
+        from gear.database import transaction
+        assert await g.execute_insertone("INSERT INTO t (k, v) VALUES (%s, %s)", ('a', 1)) == 1
+        assert await g.execute_many("INSERT INTO u (a, b) VALUES (%s, %s)", [(1, 1), (2, 2), (3, 3)]) == 3      # one multi-row statement
+        assert [x[2] for x in g.pool.log if x[2].startswith('INSERT INTO u')] == ['INSERT INTO u (a, b) VALUES (%s, %s)']
+        assert await g.execute_update('UPDATE u SET b = b + 1 WHERE a > %s', (1,)) == 2
+        assert (await g.select_and_fetchone('SELECT COUNT(*) AS n FROM u'))['n'] == 3
+        assert [r['a'] async for r in g.select_and_fetchall('SELECT a FROM u ORDER BY a DESC')] == [3, 2, 1]
+
+        @transaction(g)
+        async def fails(tx):
+            await tx.just_execute('DELETE FROM u')
+            await tx.execute_many("INSERT INTO t (k, v) VALUES (%s, %s)", [('x', 1), ('a', 2)])      # duplicate -> 1062
+
+        try:
+            await fails()
+            raise AssertionError('expected 1062')
+        except pymysql.err.IntegrityError:
+            pass
+        assert len(db.tables['u']) == 3 and len(db.tables['t']) == 1
+        # fault iterator: deadlock on the 3rd statement of the first attempt (acquire, START TRANSACTION, DELETE), then clean
+        g.pool.faults = iter([None, None, pymysql.err.OperationalError(1213, 'Deadlock found')])
+        n0 = g.pool.stmt_index
+
+        @transaction(g)
+        async def ok(tx):
+            await tx.just_execute('DELETE FROM u WHERE a = 1')
+            rv = await tx.execute_and_fetchone('SELECT COUNT(*) AS n FROM u')
+            return rv['n']
+
+        import hailtop.utils
+        real_sleep = asyncio.sleep
+
+        async def no_sleep(_):
+            await real_sleep(0)
+        asyncio.sleep, saved = no_sleep, asyncio.sleep
+        try:
+            assert await ok() == 2
+        finally:
+            asyncio.sleep = saved
+        sqls = [x[2] for x in g.pool.log if x[0] >= n0]
+        assert sqls == ['<acquire>', 'START TRANSACTION;', 'DELETE FROM u WHERE a = 1', 'ROLLBACK', '<acquire>', 'START TRANSACTION;',
+                        'DELETE FROM u WHERE a = 1', 'SELECT COUNT(*) AS n FROM u', 'COMMIT'], sqls
+        rv = await g.check_call_procedure('CALL pr(%s)', (1,)) if 'pr' in db.routines else None
+        await g.async_close()
+
+    logging.getLogger('gear.database').setLevel(logging.CRITICAL + 1)
+    asyncio.run(go())
 
 
 def main():
